@@ -103,6 +103,10 @@ namespace Givaro {
 
     Rational& Rational::operator -= (const Rational& r)
     {
+        if (&r == this) { // s -= s: num and den are updated while r is still being read
+            Rational tmp(r);
+            return *this -= tmp;
+        }
         if (isZero(r)) return *this ;
         if (isZero(*this)) {
             num = -r.num;
